@@ -11,6 +11,13 @@ def _ret_term(body):
     return body.origin.place({'l': 0, 'p': []}, body.term_point(rets[0]))
 
 
+def _unsome(v):
+    """payload of Some(x) (a per-worker slot kept as Option<isize>: None = idle), else v itself"""
+    if isinstance(v, tuple) and v[:3] == ('aggr', M.OPTION, 'Some') and v[3]:
+        return v[3][0][1]
+    return v
+
+
 def _closure_ret(F, t):
     """return term of a closure term ('closure', name, ops)"""
     if isinstance(t, tuple) and t and t[0] == 'closure' and t[1] in F.bodies:
@@ -713,6 +720,7 @@ def r_c04(ctx):
                               '%s writes upper_bounds[%s], not the slot of the calling worker' % (fb_.fn_name, M.show(dest[2])))
         # ... the bound registered for a popped node is that node's ub, and the bound handed to abort_search is the ub of the work item
         for (pt, dest, val, st) in writes(gw):
+            val = _unsome(val)
             if isinstance(dest, tuple) and dest[0] == 'index' and M.is_field(dest[1], 'upper_bounds', 'Critical'):
                 ctx.check(is_subproblem_field(val, 'ub') and M.contains(val, lambda x: M.is_call(x, 'Fringe::pop')) or
                           (is_subproblem_field(val, 'ub') and any(M.contains(d_, lambda x: M.is_call(x, 'Fringe::pop')) for d_ in var_def_terms(gw, val[1]))),
@@ -986,9 +994,17 @@ def r_nb_threads(ctx):
                       '%s can store nb_threads = 0 (%s has lower bound %d): maximize() then spawns no worker, leaves the root on the fringe and still reports is_exact = true / no solution' % (body.fn_name, M.show(n)[:80], lbv))
     vals = set(m[2] for m in markers)
     one = len(vals) == 1 and is_min_const(list(vals)[0])
+    if len(vals) == 1 and list(vals)[0] == M.MK_NONE:
+        # slots kept as Option<isize>: None is neutral provided the abort skips it (flatten / filter_map / flat_map before the max)
+        try:
+            asb_ = ctx.body(PAR, 'abort_search')
+            one = any(M.contains(asb_.origin.operand(a_, asb_.term_point(bb_)), lambda x: M.is_field(x, 'upper_bounds', 'Critical'))
+                      for (bb_, t_) in asb_.calls_to('flatten', 'filter_map', 'flat_map') for a_ in t_['args'][:1])
+        except MissingAnchor:
+            one = False
     if markers:
         ctx.check(one and len(markers) >= 3, 'R05.4', 'idle-marker', markers[0][0], markers[0][0].loc(*markers[0][1]),
-                  'idle workers hold isize::MIN in upper_bounds at all %d places (neutral element of the max taken at abort)' % len(markers),
+                  'idle workers hold the neutral element of the max taken at abort (isize::MIN, or None skipped by the reader) in upper_bounds at all %d places' % len(markers),
                   'the idle marker of upper_bounds is not uniformly isize::MIN (%s): the max over in-flight bounds at abort is wrong' % sorted(M.show(v) for v in vals))
 
 
@@ -1171,7 +1187,7 @@ def r_abort(ctx):
     for (bb_, i_, s_) in wi_:
         item = gwb.origin.rvalue(s_['rv'], (bb_, i_))
         node_t = dict(item[3]).get('node') if isinstance(item, tuple) and item[0] == 'aggr' else None
-        okw = [pt for (pt, d, v) in ubw if M.is_param(d[2]) and d[2][1] == gwb.name and is_subproblem_field(v, 'ub') and (node_t is None or v[1] == node_t or
+        okw = [pt for (pt, d, v0_) in ubw for v in [_unsome(v0_)] if M.is_param(d[2]) and d[2][1] == gwb.name and is_subproblem_field(v, 'ub') and (node_t is None or v[1] == node_t or
                (isinstance(node_t, tuple) and node_t[0] == 'var' and isinstance(v[1], tuple) and v[1][0] == 'var' and v[1][2] == node_t[2]))]
         r_ = gwb.reach([(0, 0)], avoid=okw)
         good = good and bool(okw) and (bb_, i_) not in r_
